@@ -626,6 +626,15 @@ func (env *evalEnv) call(v *ast.CallExpr) SV {
 				return SV{t: tb.Le(r, tb.Int(-100000)), typ: boolT}
 			}
 			return SV{t: tb.Lt(r, tb.Int(0)), typ: boolT}
+		case "yieldstopped", "yieldbad":
+			// the `yields` protocol: the callback has returned false / it was called (or handed on) after that
+			if e.yieldParam == nil {
+				env.fail("%s() outside a unit with a `yields` clause", id.Name)
+			}
+			if id.Name == "yieldstopped" {
+				return SV{t: e.yieldStopped(env.st), typ: boolT}
+			}
+			return SV{t: e.yieldBad(env.st), typ: boolT}
 		case "calleefresh":
 			// allocated by a callee: distinct from everything that existed at entry and from this function's own allocations
 			a := env.eval(v.Args[0])
